@@ -33,6 +33,7 @@ type StructResult struct {
 }
 
 type Plan struct {
+	LockMode    bool // lock tracking (C20)
 	ID          string
 	Patterns    []string
 	Units       []UnitPlan
@@ -131,6 +132,7 @@ func Check(id, tier string, seed int) int {
 	if len(pats) == 0 {
 		pats = []string{"./..."}
 	}
+	vc.LockModeDefault = p.LockMode
 	e, err := vc.Load("/repo", verif, pats...)
 	if err != nil {
 		fmt.Printf("ENGINE-ERROR property=%s load: %v\n", id, err)
